@@ -65,6 +65,7 @@ static bool pathOp(HxLine& l)
 #include <sys/stat.h>
 #include <sys/types.h>
 #include <sys/syscall.h>
+#include <pwd.h>
 
 static char BASE[512];
 static size_t BASELEN;
@@ -90,6 +91,30 @@ extern "C" int mkdir(const char* path, mode_t mode)
   if(g_mk_countdown > 0) --g_mk_countdown;
   return rawMkdir(path, mode);
 }
+
+// readdir with a d_type fault: 1 = every entry is reported as DT_UNKNOWN (a file system without d_type support),
+// 2 = the entries whose name ends in a byte with odd value.  The real call goes through dlsym(RTLD_NEXT).
+#include <dlfcn.h>
+static int g_dt_mode = 0;
+static long g_total_dt = 0;
+typedef struct dirent* (*readdir_fn)(DIR*);
+static struct dirent* realReaddir(DIR* d)
+{
+  static readdir_fn f = 0;
+  if(!f) f = (readdir_fn)dlsym(RTLD_NEXT, "readdir");
+  return f(d);
+}
+extern "C" struct dirent* readdir(DIR* d)
+{
+  struct dirent* e = realReaddir(d);
+  if(e && g_dt_mode)
+  {
+    size_t n = strlen(e->d_name);
+    if(g_dt_mode == 1 || (n && ((unsigned char)e->d_name[n - 1] & 1))) { e->d_type = DT_UNKNOWN; ++g_total_dt; }
+  }
+  return e;
+}
+extern "C" struct dirent64* readdir64(DIR* d) { return (struct dirent64*)readdir(d); }
 
 static void die(const char* what) { fprintf(stderr, "harness: %s: %s\n", what, strerror(errno)); exit(3); }
 
@@ -139,7 +164,7 @@ static void fsReset()
   snprintf(p, sizeof(p), "%s/o/od", BASE); if(rawMkdir(p, 0755) != 0) die(p);
   snprintf(p, sizeof(p), "%s/o/od/x", BASE); rawWriteFile(p, "X", 1);
   snprintf(p, sizeof(p), "%s/s", BASE); if(chdir(p) != 0) die("chdir s");
-  g_sf_mode = -1; g_mk_countdown = -1;
+  g_sf_mode = -1; g_mk_countdown = -1; g_dt_mode = 0;
 }
 
 static void fsCleanup()
@@ -315,6 +340,22 @@ static void runScript(File& f, char* script)
       else printf(" r=fail");
     }
     else if(it[0] == 'z') printf(" z=%lld", (long long)f.size());
+    else if(it[0] == 'p' && it[1])
+    { // File::read(buffer, len) into an exactly sized heap block (ASan sees a write past `len`)
+      size_t len = (size_t)strtoul(it + 1, 0, 10);
+      if(len > 4096) { printf(" bad"); return; }
+      char* b = (char*)malloc(len ? len : 1);
+      ssize r = f.read(b, len);
+      if(r < 0) printf(" p=fail"); else { printf(" p="); hxPutHex(b, (size_t)r); }
+      free(b);
+    }
+    else if(it[0] == 'v' && !it[1])
+    { // File::write(const void*, usize) answers the byte count
+      printf(" v=%lld", (long long)f.write("VW", 2));
+    }
+    else if(it[0] == 'i' && !it[1]) printf(" i=%d", f.isOpen() ? 1 : 0);
+    else if(it[0] == 'o' && !it[1]) printf(" o=%d", f.open(String("nstd-verif-never-opened"), File::writeFlag) ? 1 : 0);
+    else if(it[0] == 'f' && !it[1]) printf(" f=%d", f.flush() ? 1 : 0);
     else if(it[0] == 's' && it[1] >= '0' && it[1] <= '2' && it[2] == ':')
       printf(" s=%lld", (long long)f.seek((int64)strtoll(it + 3, 0, 10), (File::Position)(it[1] - '0')));
     else { printf(" bad"); return; }
@@ -335,6 +376,16 @@ static bool fsOp(HxLine& l)
     const char* t = a; size_t tl = a.length();
     if(tl >= BASELEN && !strncmp(t, BASE, BASELEN) && (t[BASELEN] == '/' || !t[BASELEN])) { t += BASELEN; tl -= BASELEN; }
     hxPutHex(t, tl);
+    putSnapshot();
+    return true;
+  }
+  if(hxIs(l, "fsconst", 1))
+  {
+    String tmp = Directory::getTempDirectory();
+    String home = Directory::getHomeDirectory();
+    const struct passwd* pw = getpwuid(geteuid());
+    printf("tmp="); hxPutHex((const char*)tmp, tmp.length());
+    printf(" home=%d", pw ? (strcmp(pw->pw_dir, home) == 0 ? 1 : 0) : (home.isEmpty() ? 1 : 0));
     putSnapshot();
     return true;
   }
@@ -406,7 +457,14 @@ static bool fsOp(HxLine& l)
       printf("%d fired=%d", r ? 1 : 0, g_sf_fired);
     }
   }
-  else if(hxIs(l, "fsexists", 1)) printf("%d %d", File::exists(p) ? 1 : 0, Directory::exists(p) ? 1 : 0);
+  else if(hxIs(l, "fsexists", 1))
+  {
+    File::Time tm; tm.writeTime = tm.accessTime = tm.creationTime = -1;
+    bool t = File::time(p, tm);
+    // the time stamps themselves are not compared (wall clock); a successful call must have filled them in
+    bool filled = tm.writeTime > 0 && tm.accessTime > 0 && tm.creationTime > 0;
+    printf("%d %d %d", File::exists(p) ? 1 : 0, Directory::exists(p) ? 1 : 0, t ? (filled ? 1 : 2) : 0);
+  }
   else if(hxIs(l, "fsreadall", 1))
   {
     String d;
@@ -432,6 +490,71 @@ static bool fsOp(HxLine& l)
       for(size_t i = 0; i < n; ++i) { printf(" %s", items[i]); free(items[i]); }
     }
   }
+  else if(hxIs(l, "fslsp", 4))
+  {
+    size_t pn = 0; char* praw = hxCStr(l.tok[2], pn); String pat(praw, pn); free(praw);
+    for(size_t k = 0; k < pn; ++k) if(((const char*)pat)[k] == '[' || ((const char*)pat)[k] == '\\') return false;   // outside the modelled fragment of fnmatch
+    if((l.tok[3][0] != '0' && l.tok[3][0] != '1') || l.tok[3][1] || l.tok[4][0] < '0' || l.tok[4][0] > '2' || l.tok[4][1]) return false;
+    Directory d;
+    g_dt_mode = l.tok[4][0] - '0';
+    if(!d.open(p, pat, l.tok[3][0] == '1')) { g_dt_mode = 0; printf("ls=0"); }
+    else
+    {
+      bool again = d.open(p, pat, false);          // an open Directory object refuses a second open
+      char* items[256]; size_t n = 0;
+      String name; bool isDir;
+      while(n < 256 && d.read(name, isDir))
+      {
+        char* it = (char*)malloc(2 * name.length() + 8); char* w = it;
+        hexInto(w, name, name.length()); *w++ = ':'; *w++ = isDir ? '1' : '0'; *w = 0;
+        items[n++] = it;
+      }
+      g_dt_mode = 0;
+      qsort(items, n, sizeof(char*), cmpHexName);
+      printf("ls=1");
+      for(size_t i = 0; i < n; ++i) { printf(" %s", items[i]); free(items[i]); }
+      d.close();
+      bool afterClose = d.read(name, isDir);       // a closed Directory object reads nothing
+      d.close();
+      printf(" again=%d afterclose=%d", again ? 1 : 0, afterClose ? 1 : 0);
+    }
+  }
+  else if(hxIs(l, "fsrmdiru", 3))
+  {
+    if(hitsCwd(p)) return false;
+    if((l.tok[2][0] != '0' && l.tok[2][0] != '1') || l.tok[2][1] || l.tok[3][0] < '0' || l.tok[3][0] > '2' || l.tok[3][1]) return false;
+    g_dt_mode = l.tok[3][0] - '0';
+    bool r = Directory::unlink(p, l.tok[2][0] == '1');
+    g_dt_mode = 0;
+    printf("%d", r ? 1 : 0);
+  }
+  else if(hxIs(l, "fscd", 2))
+  {
+    size_t qn = 0; char* qraw = hxCStr(l.tok[2], qn);
+    bool dots = false;          // the second path is resolved from the new working directory: no ".." (it could climb above the world)
+    for(size_t i = 0; i < qn; )
+    {
+      while(i < qn && qraw[i] == '/') ++i;
+      size_t b = i;
+      while(i < qn && qraw[i] != '/') ++i;
+      if(i - b == 2 && qraw[b] == '.' && qraw[b + 1] == '.') dots = true;
+    }
+    String rawq(qraw, qn); free(qraw);
+    String q = xl(l.tok[2], ok);
+    if(!ok || dots) return false;
+    bool r = Directory::change(p);
+    String cw = Directory::getCurrentDirectory();
+    const char* t = cw; size_t tl = cw.length();
+    if(tl >= BASELEN && !strncmp(t, BASE, BASELEN) && (t[BASELEN] == '/' || !t[BASELEN])) { t += BASELEN; tl -= BASELEN; }
+    printf("cd=%d cwd=", r ? 1 : 0); hxPutHex(t, tl);
+    String a = File::getAbsolutePath(qn && ((const char*)rawq)[0] == '/' ? q : rawq);
+    t = a; tl = a.length();
+    if(tl >= BASELEN && !strncmp(t, BASE, BASELEN) && (t[BASELEN] == '/' || !t[BASELEN])) { t += BASELEN; tl -= BASELEN; }
+    printf(" abs="); hxPutHex(t, tl);
+    printf(" e=%d d=%d ea=%d da=%d", File::exists(q) ? 1 : 0, Directory::exists(q) ? 1 : 0, File::exists(a) ? 1 : 0, Directory::exists(a) ? 1 : 0);
+    char back[1024]; snprintf(back, sizeof(back), "%s/s", BASE);
+    if(chdir(back) != 0) die("chdir back");
+  }
   else if(hxIs(l, "fsfile", 3))
   {
     unsigned long flags = hxNum(l, 2);
@@ -443,6 +566,7 @@ static bool fsOp(HxLine& l)
       printf("open=1");
       runScript(f, l.tok[3]);
       f.close();
+      printf(" closed=%d", f.isOpen() ? 0 : 1);
     }
   }
   else return false;
@@ -461,6 +585,6 @@ int main()
     if(fsOp(l)) continue;
     printf("bad-op"); hxEndLine();
   }
-  fprintf(stderr, "faults-fired sendfile=%ld mkdir=%ld\n", g_total_sf, g_total_mk);
+  fprintf(stderr, "faults-fired sendfile=%ld mkdir=%ld dtype-unknown=%ld\n", g_total_sf, g_total_mk, g_total_dt);
   return 0;
 }
